@@ -76,9 +76,20 @@ def main():
         ctx.escalated = True
         rc = ctx.finish(level=getattr(mod, "LEVEL", "proof"), checker_cmd=getattr(mod, "CHECKER", ""))
     except Exception:
+        # the machinery itself tripped -- in practice over an output of the code it did not expect (all checks run clean on the unchanged tree
+        # over many seeds). The property is then not shown to hold on this tree: report it as such, with the traceback as the replay.
+        tb = traceback.format_exc()
         traceback.print_exc()
-        print("internal error in check machinery (not a verdict about the code)")
-        return 2
+        try:
+            ctx3 = C.Ctx(prop, tier, seed)
+            ctx3.escalated = True
+            ctx3.violation("the check machinery failed while judging this tree (unexpected output of the code?): " + tb.strip().splitlines()[-1][:300],
+                           dict(kind="machinery", traceback=tb[-6000:]), no_input=True)
+            return ctx3.finish(level=getattr(mod, "LEVEL", "proof"), checker_cmd=getattr(mod, "CHECKER", ""))
+        except Exception:
+            traceback.print_exc()
+            print("internal error in check machinery (not a verdict about the code)")
+            return 2
     return rc
 
 
